@@ -39,7 +39,7 @@ ASSUME = [
 
 # ("twin",) = the same digits under the other JSON type (int for a digit-string id)
 KINDS = [("res", ("me",)), ("err", ("me",)), ("req", ("me",)), ("res", ("str", "zz-other")), ("err", ("str", "zz-other")),
-         ("res", ("twin",)), ("notif",), ("nullerr",), ("nullres",), ("prog", True), ("prog", False), ("batch", ("me",)), ("req", ("str", "zz-other"))]
+         ("res", ("twin",)), ("notif",), ("nullerr",), ("nullres",), ("cancelnotif", ("me",)), ("prog", True), ("prog", False), ("batch", ("me",)), ("req", ("str", "zz-other"))]
 IDS = ["a", "123", None, "req-é中", "0", "-5"]
 
 
@@ -49,6 +49,8 @@ def is_digits(me):
 
 def mk(kind, me, n):
     k = kind[0]
+    if k == "cancelnotif":
+        return ("cancelnotif", kind[1])
     if k in ("res", "err", "req", "batch"):
         ids = kind[1]
         if ids[0] == "twin":
@@ -85,6 +87,12 @@ def gen(ctx):
             for k1, k2 in itertools.product(KINDS, KINDS[:3]):
                 me = rng.choice(IDS)
                 out.append({"D": D, "me": me, "arrivals": [(t1, mk(k1, me, 1)), (t2, mk(k2, me, 2))]})
+    # degenerate deadlines: a timeout of exactly 0 / of one tick; what arrives later does not complete the request
+    for D in (0, 1):
+        for me in ("a", None):
+            for arr in ([], [(-1, ("res", ("me",), 1))], [(0, ("res", ("me",), 1))], [(1, ("res", ("me",), 1))],
+                        [(30, ("res", ("me",), 1))], [(2, ("notif",)), (40, ("err", ("me",), -32601, None))]):
+                out.append({"D": D, "me": me, "arrivals": arr})
     for _ in range(ctx.budget(1200, 40000)):
         D = rng.choice((60, 100, 137, 250, 6000))
         me = rng.choice(IDS)
